@@ -11,3 +11,4 @@ import CruxVerif.Props.C02
 #print axioms Props.C02.stream_items_consumed_in_order
 #print axioms Props.C02.poll_keeps_channels_unshared
 #print axioms Props.C02.poll_never_adopts_foreign_channel
+#print axioms Props.C02.channels_unshared_over_runs_partial
